@@ -111,6 +111,20 @@ def derived_chain_in_crossing(p):
     return False
 
 
+def crossed_derived_reads_derived(p):
+    """A crossing contains a within-trial derived factor one of whose dependencies is itself a derived
+    factor (in the crossing or not): the shape on which the code's per-factor impossibility test
+    over-approximates the possible combinations."""
+    fm = _fm(p)
+    for c in _crossings(p):
+        for f in c:
+            fd = fm[f]
+            if fd["kind"] == "derived" and not docsem.is_complex(p, fd):
+                if any(fm[d]["kind"] == "derived" for d in fd["window"]["deps"]):
+                    return True
+    return False
+
+
 CAUSES = [
     ("derived-source", derived_source),
     ("window-longer-than-trials", window_longer_than_trials),
